@@ -2,7 +2,7 @@ import Fundraising.Proofs.WFBasic
 /-
   `createAuction`, `cancelAuction`, `MsgUpdateParams` preserve `WF` and `BankNonneg`.
 -/
-namespace Fundraising
+namespace Fundraising.WFInv
 
 theorem cancelAuction_wf {c c' : Ctx} {signer : Acc} {aid : Nat}
     (h : cancelAuction c signer aid = .ok c') (hw : WF c.s) :
@@ -15,7 +15,7 @@ theorem cancelAuction_wf {c c' : Ctx} {signer : Acc} {aid : Nat}
   obtain ⟨f1, _, n1⟩ := bankCall_frame hb
   obtain ⟨f2, _, n2⟩ := hook_frame hh
   have f := f1.trans f2
-  have hw2 : WF c2.s := hw.frame f
+  have hw2 : WF c2.s := WF.frame f hw
   have V := hw.views aid v hv
   have hst : v.a.status = .standby := by simpa using hc2
   refine ⟨WF.ctx_setView hw2 aid _ ?_, fun hn => n2 (n1 (mkCoins_nonneg hmk) hn)⟩
@@ -56,7 +56,7 @@ theorem createAuction_wf {c c' : Ctx} {m : CreateMsg}
   obtain ⟨f3, _, n3⟩ := hook_frame hh1
   obtain ⟨f4, _, n4⟩ := hook_frame h
   have f := (f1.trans f2).trans f3
-  have hw3 : WF c3.s := hw.frame f
+  have hw3 : WF c3.s := WF.frame f hw
   have hlen : c.s.views.length = c3.s.views.length := by rw [f.views]
   unfold validCoin at v4
   simp only [Bool.and_eq_true, decide_eq_true_eq] at v4
@@ -129,4 +129,4 @@ theorem updateParams_wf {c : Ctx} {p : Params} (hw : WF c.s)
   simp only [Bool.and_eq_true] at hp
   exact ⟨hp, hw.views, hw.switchOff⟩
 
-end Fundraising
+end Fundraising.WFInv
